@@ -12,8 +12,10 @@ import (
 func init() {
 	registry["C05"] = func() []*seqmc.Spec {
 		cap := 4
+		pairCap := 2
 		if thorough {
 			cap = 9
+			pairCap = 3
 		}
 		return []*seqmc.Spec{
 			{Property: "C05", Component: "Queue", Inits: []string{"empty"}, New: func(string) seqmc.Sys {
@@ -22,6 +24,13 @@ func init() {
 			{Property: "C05", Component: "LQueue", Inits: []string{"1", "2", "3"}, New: func(in string) seqmc.Sys {
 				v := int(in[0] - '0')
 				return &queueSys{name: "LQueue", q: linkedQ{queue.NewLinked[int](v)}, model: []int{v}, cap: cap}
+			}},
+			// two instances side by side (whatever the implementation keeps at package level)
+			{Property: "C05", Component: "Queue x Queue", KeyName: "Queue", Inits: []string{"empty"}, New: func(string) seqmc.Sys {
+				return seqmc.Pair(&queueSys{name: "Queue", q: sliceQ{queue.New[int]()}, cap: pairCap}, &queueSys{name: "Queue", q: sliceQ{queue.New[int]()}, cap: pairCap})
+			}},
+			{Property: "C05", Component: "LQueue x LQueue", KeyName: "LQueue", Inits: []string{"1"}, New: func(string) seqmc.Sys {
+				return seqmc.Pair(&queueSys{name: "LQueue", q: linkedQ{queue.NewLinked[int](1)}, model: []int{1}, cap: pairCap}, &queueSys{name: "LQueue", q: linkedQ{queue.NewLinked[int](2)}, model: []int{2}, cap: pairCap})
 			}},
 		}
 	}
